@@ -29,6 +29,25 @@ MAXPAR = int(os.environ.get("VERIF_MAXPAR", "16"))
 STRIP = ("case", "ctl", "value", "base")
 
 
+def control_outcome(chk, part, ctl, base_ok, accepted):
+    """Negative controls, robust for every seed.  A control is evaluated only when TLC accepted its base record.  Several
+    candidate records are corrupted per corruption kind; a kind FAILS (binding failure, exit 2) only when it had evaluated
+    candidates and NONE was rejected.  An accepted candidate next to rejected ones means that this corruption happened to be
+    harmless for that record (e.g. reversing a palindromic bit string); it is counted, not raised."""
+    kinds = {}
+    for c in ctl:
+        if not base_ok(c):
+            continue
+        k = kinds.setdefault(c["ctl"], [0, 0])
+        k[0] += 1
+        k[1] += 0 if accepted(c) else 1
+    chk.part(part, corrupted=sum(k[0] for k in kinds.values()), rejected=sum(k[1] for k in kinds.values()),
+             by_kind={n: {"evaluated": k[0], "rejected": k[1]} for n, k in sorted(kinds.items())})
+    dead = sorted(n for n, k in kinds.items() if k[0] > 0 and k[1] == 0)
+    if dead:
+        raise tlc.TLCError("binding failure (%s): no corrupted record of kind %s was rejected" % (part, dead))
+
+
 def submit_judge(pool, jobs, name, M, nchunks):
     """Split the records in chunks, one JVM each (spec/C20Trace.tla), all on the shared pool. Returns futures."""
     if not jobs:
@@ -186,13 +205,9 @@ def qft_account(chk, by_m, ctls, verdicts_by_m):
                 key = "qft:%s:%s:w%d:%s" % ("inverse" if c["inverse"] else "forward", "swap" if c["swap"] else "noswap", len(c["L"]), v)
                 chk.violation(key, "UnitaryOf(get_qft_circuit(%r, n_qubits=%r, inverse=%r, swap=%r)) != expected DFT operator: %s"
                               % (c["arg"], c["n_qubits"], c["inverse"], c["swap"], v), {"kind": "qft", "case": c})
-        ctl = [c for c in ctl if verdicts[c["base"]][0] == "ok"]      # a corruption of a wrong record proves nothing
-        bad = [(c["ctl"], c["L"]) for c in ctl if verdicts[c["id"]][0] == "ok"]
         if ctl:
-            chk.part("negative_controls_qft", corrupted=len(ctl), rejected=len(ctl) - len(bad),
-                     kinds=sorted(set(c["ctl"] for c in ctl)))
-        if bad:
-            raise tlc.TLCError("binding failure: corrupted QFT records accepted: %s" % bad[:5])
+            control_outcome(chk, "negative_controls_qft", ctl, lambda c: verdicts[c["base"]][0] == "ok",
+                            lambda c: verdicts[c["id"]][0] == "ok")
         if M == 8 and jobs:
             j = jobs[len(jobs) // 2]
             chk.sample({"kind": "qft", "L": j["L"], "n": j["n"], "inverse": j["inverse"], "swap": j["swap"], "gates": j["gates"],
@@ -427,11 +442,8 @@ def si_account(chk, by_m, ctls, verdicts_by_m):
                           "StateVector(%s, order=%s).%s: %s" % (c["family"], c["order"],
                                                                 "initializing_circuit" if j["kind"] == "init" else "uncomputing_circuit", v),
                           {"kind": "stateinit", "case": c})
-        ctl = [c for c in ctl if verdicts[c["base"]][0] == "ok"]
-        bad = [c["ctl"] for c in ctl if verdicts[c["id"]][0].startswith("ok")]
-        chk.part("negative_controls_stateinit_M%d" % M, corrupted=len(ctl), rejected=len(ctl) - len(bad))
-        if bad:
-            raise tlc.TLCError("binding failure: corrupted state-initialisation records accepted: %s" % bad[:5])
+        control_outcome(chk, "negative_controls_stateinit_M%d" % M, ctl, lambda c: verdicts[c["base"]][0] == "ok",
+                        lambda c: verdicts[c["id"]][0].startswith("ok"))
     if by_m.get(16):
         j = by_m[16][len(by_m[16]) // 2]
         chk.sample({"kind": j["kind"], "n": j["n"], "order": j["order"], "ph": j["ph"], "v": j["v"], "gates": j["gates"]})
@@ -439,14 +451,15 @@ def si_account(chk, by_m, ctls, verdicts_by_m):
 
 
 def si_negative_controls(jobs, M):
+    """Up to 3 base records per (circuit kind, n, order); see control_outcome for the acceptance rule."""
     ctl = []
-    seen = set()
+    seen = {}
     for j in jobs:
         rot = [x for x, g in enumerate(j["gates"]) if g["name"] == "RY" and g["k"] % (2 * M)]
         key = (j["kind"], j["n"], j["order"])
-        if key in seen or len(rot) < 1:
+        if seen.get(key, 0) >= 3 or len(rot) < 1:
             continue
-        seen.add(key)
+        seen[key] = seen.get(key, 0) + 1
         c = copy.deepcopy(j); c["gates"][rot[0]]["k"] += 2; c["ctl"] = "angle+1"; ctl.append(c)
         c = copy.deepcopy(j); c["order"] = "lsq_first" if j["order"] == "msq_first" else "msq_first"; c["ctl"] = "order"
         if j["n"] > 1 and c["v"] != [c["v"][int(format(i, "0%db" % j["n"])[::-1], 2)] for i in range(len(c["v"]))]:
@@ -706,36 +719,55 @@ def qpe_key(case, v):
     return "%s:%s:%s:m%d:%s" % (var["solver"], var["unitary"], var["method"], case["m"], v)
 
 
+def _bits_lsb_first(J, m):
+    return [(J >> i) & 1 for i in range(m)]
+
+
 def qpe_negative_controls(jobs):
+    """Corruptions of recorded phase-estimation records.  Base records are chosen by a property of the instance that makes
+    the corruption a real one (J = the spec's phase numerator, known for the TLC-enumerated instances without identity
+    term): the last stages / the feedback only matter when the least significant bit of J is set, a time reversal maps
+    J to -J mod 2^m, a bit-order reversal needs a non-palindromic bit string.  Up to 3 base records per corruption kind and
+    record type; control_outcome requires at least one rejection per kind."""
     ctl = []
-    seen = set()
+    count = {}
+
+    def want(kind, j):
+        key = (kind, j["kind"], j["case"]["variant"]["unitary"], j.get("realised", False))
+        if count.get(key, 0) >= 3:
+            return False
+        count[key] = count.get(key, 0) + 1
+        return True
+
     for j in jobs:
-        key = (j["kind"], j["case"]["variant"]["unitary"], j.get("realised", False))
-        if key in seen or j["m"] < 2 or j["case"].get("spec_j", 0) % 2 == 0 or not all(any(t["w"]) for t in j["case"]["terms"]):
-            continue            # corruptions of the last stages only matter when the least significant bit of J is set
+        case = j["case"]
+        if "spec_j" not in case or j["m"] < 2 or not all(any(t["w"]) for t in case["terms"]):
+            continue
+        J, m = case["spec_j"], j["m"]
+        bits = _bits_lsb_first(J, m)
+        odd, palindrome = J % 2 == 1, bits == bits[::-1]
         if j["kind"] == "qpe":
             cp = [x for x, g in enumerate(j["gates"]) if g["name"] == "CPHASE"]
-            if not cp:
-                continue
-            seen.add(key)
-            c = copy.deepcopy(j); c["gates"][cp[-1]]["k"] *= -1; c["ctl"] = "iqft-cphase-sign"; ctl.append(c)
-            c = copy.deepcopy(j); del c["gates"][-1]; c["ctl"] = "last-gate-dropped"; ctl.append(c)
-            if j["utype"] == "terms":
-                c = copy.deepcopy(j); c["tm"] = -c["tm"]; c["ctl"] = "time-sign"
-                ctl.append(c)
+            if odd and cp and want("iqft-cphase-sign", j):
+                c = copy.deepcopy(j); c["gates"][cp[-1]]["k"] *= -1; c["ctl"] = "iqft-cphase-sign"; ctl.append(c)
+            if want("last-gate-dropped", j):
+                c = copy.deepcopy(j); del c["gates"][-1]; c["ctl"] = "last-gate-dropped"; ctl.append(c)
+            if j["utype"] == "terms" and (2 * J) % (2 ** m) != 0 and want("time-sign", j):
+                c = copy.deepcopy(j); c["tm"] = -c["tm"]; c["ctl"] = "time-sign"; ctl.append(c)
         else:
-            seen.add(key)
-            c = copy.deepcopy(j)
-            for br in c["branches"]:
-                for seg in br["segs"][2:]:
-                    fb = [g for g in seg[:3] if g["name"] == "PHASE"][:1]      # the feedback phase follows the first H
-                    for g in fb:
-                        g["k"] = -g["k"]
-            c["ctl"] = "feedback-sign"; ctl.append(c)
-            c = copy.deepcopy(j)
-            for br in c["branches"]:
-                br["outs"] = br["outs"][::-1]
-            c["ctl"] = "bit-order"; ctl.append(c)
+            if odd and want("feedback-sign", j):
+                c = copy.deepcopy(j)
+                for br in c["branches"]:
+                    for seg in br["segs"][2:]:
+                        fb = [g for g in seg[:3] if g["name"] == "PHASE"][:1]      # the feedback phase follows the first H
+                        for g in fb:
+                            g["k"] = -g["k"]
+                c["ctl"] = "feedback-sign"; ctl.append(c)
+            if not palindrome and want("bit-order", j):
+                c = copy.deepcopy(j)
+                for br in c["branches"]:
+                    br["outs"] = br["outs"][::-1]
+                c["ctl"] = "bit-order"; ctl.append(c)
     return ctl
 
 
@@ -765,11 +797,8 @@ def qpe_judge_account(chk, jobs, verdict_tuples, ctl):
                           % (j["value"], J, case["m"], want), {"kind": "qpe", "case": case})
             continue
         n_ok += 1
-    ctl = [c for c in ctl if verdict_tuples[c["base"]][0] == "ok"]
-    bad = [c["ctl"] for c in ctl if verdict_tuples[c["id"]][0] == "ok"]
-    chk.part("negative_controls_qpe", corrupted=len(ctl), rejected=len(ctl) - len(bad), kinds=sorted(set(c["ctl"] for c in ctl)))
-    if bad:
-        raise tlc.TLCError("binding failure: corrupted phase-estimation records accepted: %s" % bad[:5])
+    control_outcome(chk, "negative_controls_qpe", ctl, lambda c: verdict_tuples[c["base"]][0] == "ok",
+                    lambda c: verdict_tuples[c["id"]][0] == "ok")
     chk.part("V_qpe_summary", judged_ok=n_ok, skipped_inputs=skipped)
     if n_ok == 0 and not chk.violations:
         raise tlc.TLCError("no phase-estimation record was judged")
